@@ -179,6 +179,11 @@ func (x *Exec) sincos(st *State, a *Term) (*Term, *Term) {
 // trigFacts adds quadrant facts when the argument is a known multiple of PI
 // and the range facts tied to the angle otherwise.
 func (x *Exec) trigFacts(st *State, a, s, c *Term) {
+	// sign and boundary facts define sin/cos of this angle: of use only where one of them is mentioned
+	def := func(t *Term) {
+		registerDef(t, s, c)
+		st.axiom(t)
+	}
 	for _, ax := range piAxioms() {
 		st.axiom(ax)
 	}
@@ -196,8 +201,8 @@ func (x *Exec) trigFacts(st *State, a, s, c *Term) {
 			n := new(big.Int).Mod(k2.Num(), big.NewInt(4)).Int64()
 			sv := []int64{0, 1, 0, -1}[n]
 			cv := []int64{1, 0, -1, 0}[n]
-			st.axiom(mkEq(s, mkRealInt(sv)))
-			st.axiom(mkEq(c, mkRealInt(cv)))
+			def(mkEq(s, mkRealInt(sv)))
+			def(mkEq(c, mkRealInt(cv)))
 			return
 		}
 	}
@@ -211,25 +216,25 @@ func (x *Exec) trigFacts(st *State, a, s, c *Term) {
 	mone := mkRealInt(-1)
 	in := func(lo, hi *Term) *Term { return mkAnd(mkLe(lo, a), mkLe(a, hi)) }
 	inS := func(lo, hi *Term) *Term { return mkAnd(mkLt(lo, a), mkLt(a, hi)) }
-	st.axiom(mkImplies(in(zero, pi), mkLe(zero, s)))
-	st.axiom(mkImplies(inS(zero, pi), mkLt(zero, s)))
-	st.axiom(mkImplies(in(pi, two), mkLe(s, zero)))
-	st.axiom(mkImplies(inS(pi, two), mkLt(s, zero)))
-	st.axiom(mkImplies(in(mkNeg(pi), zero), mkLe(s, zero)))
-	st.axiom(mkImplies(inS(mkNeg(pi), zero), mkLt(s, zero)))
-	st.axiom(mkImplies(in(mkNeg(half), half), mkLe(zero, c)))
-	st.axiom(mkImplies(inS(mkNeg(half), half), mkLt(zero, c)))
-	st.axiom(mkImplies(in(half, th), mkLe(c, zero)))
-	st.axiom(mkImplies(inS(half, th), mkLt(c, zero)))
-	st.axiom(mkImplies(in(th, mkMul(mkRat(big.NewRat(5, 2), SReal), pi)), mkLe(zero, c)))
-	st.axiom(mkImplies(inS(th, mkMul(mkRat(big.NewRat(5, 2), SReal), pi)), mkLt(zero, c)))
-	st.axiom(mkImplies(mkEq(a, zero), mkAnd(mkEq(s, zero), mkEq(c, one))))
-	st.axiom(mkImplies(mkEq(a, half), mkAnd(mkEq(s, one), mkEq(c, zero))))
-	st.axiom(mkImplies(mkEq(a, pi), mkAnd(mkEq(s, zero), mkEq(c, mone))))
-	st.axiom(mkImplies(mkEq(a, th), mkAnd(mkEq(s, mone), mkEq(c, zero))))
-	st.axiom(mkImplies(mkEq(a, two), mkAnd(mkEq(s, zero), mkEq(c, one))))
-	st.axiom(mkImplies(mkEq(a, mkNeg(half)), mkAnd(mkEq(s, mone), mkEq(c, zero))))
-	st.axiom(mkImplies(mkEq(a, mkNeg(pi)), mkAnd(mkEq(s, zero), mkEq(c, mone))))
+	def(mkImplies(in(zero, pi), mkLe(zero, s)))
+	def(mkImplies(inS(zero, pi), mkLt(zero, s)))
+	def(mkImplies(in(pi, two), mkLe(s, zero)))
+	def(mkImplies(inS(pi, two), mkLt(s, zero)))
+	def(mkImplies(in(mkNeg(pi), zero), mkLe(s, zero)))
+	def(mkImplies(inS(mkNeg(pi), zero), mkLt(s, zero)))
+	def(mkImplies(in(mkNeg(half), half), mkLe(zero, c)))
+	def(mkImplies(inS(mkNeg(half), half), mkLt(zero, c)))
+	def(mkImplies(in(half, th), mkLe(c, zero)))
+	def(mkImplies(inS(half, th), mkLt(c, zero)))
+	def(mkImplies(in(th, mkMul(mkRat(big.NewRat(5, 2), SReal), pi)), mkLe(zero, c)))
+	def(mkImplies(inS(th, mkMul(mkRat(big.NewRat(5, 2), SReal), pi)), mkLt(zero, c)))
+	def(mkImplies(mkEq(a, zero), mkAnd(mkEq(s, zero), mkEq(c, one))))
+	def(mkImplies(mkEq(a, half), mkAnd(mkEq(s, one), mkEq(c, zero))))
+	def(mkImplies(mkEq(a, pi), mkAnd(mkEq(s, zero), mkEq(c, mone))))
+	def(mkImplies(mkEq(a, th), mkAnd(mkEq(s, mone), mkEq(c, zero))))
+	def(mkImplies(mkEq(a, two), mkAnd(mkEq(s, zero), mkEq(c, one))))
+	def(mkImplies(mkEq(a, mkNeg(half)), mkAnd(mkEq(s, mone), mkEq(c, zero))))
+	def(mkImplies(mkEq(a, mkNeg(pi)), mkAnd(mkEq(s, zero), mkEq(c, mone))))
 }
 
 // atan2(y, x) = th with rho*cos(th) = x, rho*sin(th) = y, -pi < th <= pi
